@@ -4,7 +4,8 @@
    laws are over Coq's Reals and therefore rest on the standard library's real-number axioms
    (printed below by Print Assumptions). *)
 From Coq Require Import List ZArith QArith Qreals Bool Arith Reals Permutation.
-From EV Require Import JointCounts Info JointCountsProofs InfoProofs.
+From EV Require Import JointCounts Info JointCountsProofs InfoProofs JointShape JointPooled InfoEndToEnd.
+From EV Require Import InfoBase InfoGen InfoGenProofs.
 Import ListNotations.
 
 (* ---- "Joint-count tables hold, for every feature pair and state pair, the exact number of frames
@@ -251,3 +252,213 @@ Example c18_example_transpose_relabel :
   /\ relabelled (fun u => (1 - u)%nat) (fun v => v) [[1; 0; 2]; [0; 3; 0]]%nat [[0; 3; 0]; [1; 0; 2]]%nat.
 Proof. exact example_transpose_relabel. Qed.
 Print Assumptions c18_example_transpose_relabel.
+
+(* ============================ round 2: the kernel's table itself, and end-to-end laws ============ *)
+
+(* ---- the table the kernel returns for feature pair (a, b) is rectangular, n_a x n_b, under every
+        order of the increments (the hypothesis of the table-level MI laws above) ... *)
+Theorem c18_table_shape : forall sched X Y na nb jc a b,
+  matrix_bincount2d_sched sched X Y na nb = Some jc -> (a < width X)%nat -> (b < width Y)%nat ->
+  length (sub2 jc a b) = Z.to_nat na /\ width2 (sub2 jc a b) = Z.to_nat nb /\
+  rect2 (sub2 jc a b) = true.
+Proof. exact jc_table_shape. Qed.
+Print Assumptions c18_table_shape.
+
+(* ... its cell (u, v) is the exact count, in table coordinates ... *)
+Theorem c18_table_cell : forall sched X Y na nb jc a b u v,
+  schedule_ok sched -> matrix_bincount2d_sched sched X Y na nb = Some jc ->
+  (a < width X)%nat -> (b < width Y)%nat -> (u < Z.to_nat na)%nat -> (v < Z.to_nat nb)%nat ->
+  get2 (sub2 jc a b) u v = count_frames X Y a b (Z.of_nat u) (Z.of_nat v).
+Proof. exact jc_table_cell. Qed.
+Print Assumptions c18_table_cell.
+
+(* ... its row sums / column sums / total (the n_obs_a_i, n_obs_b_i, n_obs of mutual_information) are
+        the per-feature state counts and the number of frames: no frame is lost or counted twice *)
+Theorem c18_table_row_marginal : forall sched X Y na nb jc a b u,
+  schedule_ok sched -> matrix_bincount2d_sched sched X Y na nb = Some jc ->
+  (a < width X)%nat -> (b < width Y)%nat -> (u < Z.to_nat na)%nat ->
+  rowsum (sub2 jc a b) u = feature_count X a (Z.of_nat u).
+Proof. exact jc_row_marginal. Qed.
+Print Assumptions c18_table_row_marginal.
+
+Theorem c18_table_col_marginal : forall sched X Y na nb jc a b v,
+  schedule_ok sched -> matrix_bincount2d_sched sched X Y na nb = Some jc ->
+  (a < width X)%nat -> (b < width Y)%nat -> (v < Z.to_nat nb)%nat ->
+  colsum (sub2 jc a b) v = feature_count Y b (Z.of_nat v).
+Proof. exact jc_col_marginal. Qed.
+Print Assumptions c18_table_col_marginal.
+
+Theorem c18_table_total_is_frame_count : forall sched X Y na nb jc a b,
+  schedule_ok sched -> matrix_bincount2d_sched sched X Y na nb = Some jc ->
+  (a < width X)%nat -> (b < width Y)%nat -> total (sub2 jc a b) = length X.
+Proof. exact jc_table_total. Qed.
+Print Assumptions c18_table_total_is_frame_count.
+
+(* ---- pooled table of mi_matrix: same shape; the concatenated trajectories are an accepted input *)
+Theorem c18_pooled_table_shape : forall X0 Y0 rest nx ny J a b,
+  pooled_counts ((X0, Y0) :: rest) nx ny = Some J -> (a < width X0)%nat -> (b < width Y0)%nat ->
+  length (sub2 J a b) = Z.to_nat nx /\ width2 (sub2 J a b) = Z.to_nat ny /\ rect2 (sub2 J a b) = true.
+Proof. exact pooled_table_shape. Qed.
+Print Assumptions c18_pooled_table_shape.
+
+Theorem c18_pooled_table_cell : forall X0 Y0 rest nx ny J a b u v,
+  pooled_counts ((X0, Y0) :: rest) nx ny = Some J -> (a < width X0)%nat -> (b < width Y0)%nat ->
+  (u < Z.to_nat nx)%nat -> (v < Z.to_nat ny)%nat ->
+  get2 (sub2 J a b) u v =
+  count_frames (concat (map fst ((X0, Y0) :: rest))) (concat (map snd ((X0, Y0) :: rest))) a b
+               (Z.of_nat u) (Z.of_nat v).
+Proof. exact pooled_table_cell. Qed.
+Print Assumptions c18_pooled_table_cell.
+
+(* ======================= end-to-end laws over the reals (standard-library real-number axioms) === *)
+
+(* ---- "symmetric for a data set against itself", on the data: MI(b, a) = MI(a, b) *)
+Theorem c18_mi_self_symmetric_any_schedule : forall sched X n jc a b,
+  schedule_ok sched -> matrix_bincount2d_sched sched X X n n = Some jc ->
+  (a < width X)%nat -> (b < width X)%nat ->
+  mutual_information jc b a = mutual_information jc a b.
+Proof. exact mi_self_symmetric_sched. Qed.
+Print Assumptions c18_mi_self_symmetric_any_schedule.
+
+Theorem c18_mi_self_symmetric : forall X nx ny jc a b,
+  joint_counts X None nx ny = Some jc -> (a < width X)%nat -> (b < width X)%nat ->
+  mutual_information jc b a = mutual_information jc a b.
+Proof. exact mi_self_symmetric. Qed.
+Print Assumptions c18_mi_self_symmetric.
+
+(* ---- "equal to the Shannon entropy on the diagonal", on the data: MI(a, a) is the entropy of the
+        empirical distribution (state counts / frames) of feature a *)
+Theorem c18_mi_self_diagonal_is_entropy : forall X nx ny n jc a,
+  joint_counts X None nx ny = Some jc -> default_n nx X = Some n -> (a < width X)%nat ->
+  mutual_information jc a a = entropy_R (empirical_dist X a n).
+Proof. exact mi_self_diagonal_entropy. Qed.
+Print Assumptions c18_mi_self_diagonal_is_entropy.
+
+(* ---- "non-negative ... no larger than the smaller marginal entropy", on the data, any schedule *)
+Theorem c18_mi_bounds_on_data : forall sched X Y na nb jc a b,
+  schedule_ok sched -> matrix_bincount2d_sched sched X Y na nb = Some jc ->
+  (a < width X)%nat -> (b < width Y)%nat ->
+  (0 <= mutual_information jc a b)%R /\
+  (mutual_information jc a b <= entropy_R (empirical_dist X a na))%R /\
+  (mutual_information jc a b <= entropy_R (empirical_dist Y b nb))%R.
+Proof. exact mi_data_bounds. Qed.
+Print Assumptions c18_mi_bounds_on_data.
+
+(* ---- "unchanged by ... reordering frames", on the data: the same reordering of both sides is
+        accepted again and leaves every MI entry unchanged (whatever the two schedules) *)
+Theorem c18_mi_frame_order_invariant : forall s1 s2 X Y X' Y' na nb jc,
+  schedule_ok s1 -> schedule_ok s2 ->
+  matrix_bincount2d_sched s1 X Y na nb = Some jc ->
+  length X' = length Y' -> Permutation (combine X Y) (combine X' Y') ->
+  exists jc', matrix_bincount2d_sched s2 X' Y' na nb = Some jc' /\
+    forall a b, (a < width X)%nat -> (b < width Y)%nat ->
+      mutual_information jc' a b = mutual_information jc a b.
+Proof. exact mi_frame_order_invariant. Qed.
+Print Assumptions c18_mi_frame_order_invariant.
+
+(* ---- "unchanged by relabelling states", on the data: relabelling the states of either side by
+        permutations of the declared ranges is accepted again and leaves every MI entry unchanged *)
+Theorem c18_mi_relabel_invariant_on_data : forall sched X Y na nb jc (s t : Z -> Z),
+  schedule_ok sched -> matrix_bincount2d_sched sched X Y na nb = Some jc ->
+  relabel_ok s na -> relabel_ok t nb ->
+  exists jc', matrix_bincount2d_sched sched (map (map s) X) (map (map t) Y) na nb = Some jc' /\
+    forall a b, (a < width X)%nat -> (b < width Y)%nat ->
+      mutual_information jc' a b = mutual_information jc a b.
+Proof. exact mi_relabel_e2e. Qed.
+Print Assumptions c18_mi_relabel_invariant_on_data.
+
+(* ---- "computed from pooled counts when several trajectories are given": MI of the pooled table =
+        MI of the (accepted) concatenation of the trajectories *)
+Theorem c18_mi_pooled_is_mi_of_concatenation : forall X0 Y0 rest nx ny J,
+  pooled_counts ((X0, Y0) :: rest) nx ny = Some J ->
+  exists Jc,
+    matrix_bincount2d (concat (map fst ((X0, Y0) :: rest))) (concat (map snd ((X0, Y0) :: rest))) nx ny
+      = Some Jc /\
+    forall a b, (a < width X0)%nat -> (b < width Y0)%nat ->
+      mutual_information J a b = mutual_information Jc a b.
+Proof. exact mi_pooled_concat. Qed.
+Print Assumptions c18_mi_pooled_is_mi_of_concatenation.
+
+(* ---- "equal to the weighted estimator under uniform weights": the guards of the two estimators
+        select the same cells, and the clipped value weighted_mi returns for weights 1/T is the value
+        mutual_information returns on the joint counts of the same data *)
+Theorem c18_weighted_cell_is_plain_cell : forall pj px py, wmi_cellq pj px py = mi_cellq pj px py.
+Proof. exact wmi_cellq_eq. Qed.
+Print Assumptions c18_weighted_cell_is_plain_cell.
+
+Theorem c18_weighted_uniform_equals_plain : forall X n ny jc a b,
+  joint_counts X None (Some n) ny = Some jc -> (a < width X)%nat -> (b < width X)%nat ->
+  weighted_mi_R X (repeat (1 # Pos.of_nat (length X)) (length X)) n a b = mutual_information jc a b.
+Proof. exact weighted_uniform_mi. Qed.
+Print Assumptions c18_weighted_uniform_equals_plain.
+
+Theorem c18_weighted_uniform_equals_plain_any_schedule : forall sched X n jc a b,
+  schedule_ok sched -> matrix_bincount2d_sched sched X X n n = Some jc ->
+  (a < width X)%nat -> (b < width X)%nat ->
+  weighted_mi_R X (repeat (1 # Pos.of_nat (length X)) (length X)) n a b = mutual_information jc a b.
+Proof. exact weighted_uniform_mi_sched. Qed.
+Print Assumptions c18_weighted_uniform_equals_plain_any_schedule.
+
+(* ---- Non-vacuity of the round-2 hypotheses *)
+Example c18_example_e2e :
+  joint_counts [[0; 1]; [1; 1]; [0; 0]]%Z None None None
+    = Some [[[[2; 0]; [0; 1]]; [[1; 1]; [0; 1]]]; [[[1; 0]; [1; 1]]; [[1; 0]; [0; 2]]]]%nat
+  /\ default_n None [[0; 1]; [1; 1]; [0; 0]]%Z = Some 2%Z
+  /\ width [[0; 1]; [1; 1]; [0; 0]]%Z = 2%nat
+  /\ map (feature_count [[0; 1]; [1; 1]; [0; 0]]%Z 1) (zrange 2) = [1; 2]%nat
+  /\ Permutation (combine [[0; 1]; [1; 1]]%Z [[1]; [0]]%Z) (combine [[1; 1]; [0; 1]]%Z [[0]; [1]]%Z).
+Proof.
+  split; [vm_compute; reflexivity|]. split; [vm_compute; reflexivity|]. split; [vm_compute; reflexivity|].
+  split; [vm_compute; reflexivity|]. apply perm_swap.
+Qed.
+Print Assumptions c18_example_e2e.
+
+Example c18_example_relabel :
+  relabel_ok (fun u => if (0 <=? u)%Z && (u <? 2)%Z then (1 - u)%Z else u) 2.
+Proof. exact example_relabel_ok. Qed.
+Print Assumptions c18_example_relabel.
+
+(* ============================ round 2: tie to the source text of libinfo.pyx ======================
+   Gen/InfoGen.v is regenerated on every run by translator/tr_info.py from
+   enspara/info_theory/libinfo.pyx:matrix_bincount2d (assert statements, allocation, loop nest, index
+   expression of the increment).  The theorems below say that this text is the hand-written model
+   the count theorems are about; they stop compiling when the source changes meaning. *)
+
+(* ---- the assert chain (`a.shape[0] == b.shape[0]`, `a.max() < n_a`, `a.min() >= 0`, ...) accepts
+        exactly what the model's guard accepts *)
+Theorem c18_generated_validation_is_model : forall X Y na nb,
+  rect X = true -> rect Y = true -> (Z.of_nat (width X) < 2 ^ 32)%Z ->
+  gen_validate X Y na nb = (length X =? length Y)%nat && valid_side X na && valid_side Y nb.
+Proof. exact gen_validate_is_model. Qed.
+Print Assumptions c18_generated_validation_is_model.
+
+(* ---- allocation np.zeros((a.shape[1], b.shape[1], n_a, n_b)), loop order and the written cell
+        jc[a_row, b_row, a[t, a_row], b[t, b_row]] are those of the model's sequential run *)
+Theorem c18_generated_kernel_is_model : forall X Y na nb,
+  gen_kernel X Y na nb =
+  run X Y (serial_events (width X) (width Y) (length X))
+      (zeros4 (width X) (width Y) (Z.to_nat na) (Z.to_nat nb)).
+Proof. exact gen_kernel_is_model. Qed.
+Print Assumptions c18_generated_kernel_is_model.
+
+Theorem c18_generated_function_is_model : forall X Y na nb,
+  rect X = true -> rect Y = true -> (Z.of_nat (width X) < 2 ^ 32)%Z ->
+  gen_matrix_bincount2d X Y na nb = matrix_bincount2d X Y na nb.
+Proof. exact gen_matrix_bincount2d_is_model. Qed.
+Print Assumptions c18_generated_function_is_model.
+
+(* ---- the prange variable is the leading index of the written cell (each iteration owns
+        jc[a_row, ...]; see c18_parallel_iterations_disjoint) *)
+Theorem c18_generated_parallel_axis_is_leading : gen_parallel_axis = Some 0%nat.
+Proof. exact gen_parallel_axis_is_leading. Qed.
+Print Assumptions c18_generated_parallel_axis_is_leading.
+
+Example c18_example_generated :
+  gen_matrix_bincount2d [[0; 1]; [1; 1]; [0; 0]]%Z [[1]; [0]; [1]]%Z 2 2
+    = Some [[[[0; 2]; [1; 0]]]; [[[0; 1]; [1; 1]]]]%nat
+  /\ gen_matrix_bincount2d [[0]; [1]]%Z [[0]; [-1]]%Z 2 2 = None
+  /\ gen_matrix_bincount2d [[0]; [2]]%Z [[0]; [1]]%Z 2 2 = None
+  /\ gen_matrix_bincount2d [[0]; [1]]%Z [[0]]%Z 2 2 = None
+  /\ gen_matrix_bincount2d []%Z [] 2 2 = None.
+Proof. vm_compute. repeat split; reflexivity. Qed.
+Print Assumptions c18_example_generated.
